@@ -728,7 +728,13 @@ def rerun(case):
         case["impl"] = run_define(case["actions"])
         return case
     events = [dict(perturb=e["perturb"], call=e["call"]) for e in case["events"]]
-    fresh = [f["call"] for f in case["fresh"]]
+    # every distinct call in THREE fresh interpreters (their global generators are seeded from OS entropy, so a dependence
+    # on them shows up as disagreement between fresh runs with high probability), the history once
+    distinct = []
+    for f in case["fresh"]:
+        if call_key(f["call"]) not in [call_key(c) for c in distinct]:
+            distinct.append(f["call"])
+    fresh = [c for c in distinct for _ in range(3)]
     outs = run_workers([events] + [[dict(perturb=[], call=c)] for c in fresh], full=True)
     for o in outs:
         if "error" in o:
@@ -737,10 +743,12 @@ def rerun(case):
     for e, r in zip(case["events"], outs[0]["events"]):
         e.update(before=r["before"], after=r["after"], digest=r["digest"], status=r["status"], summary=r["summary"])
         fulls.setdefault(call_key(e["call"]), []).append(r["full"])
-    for f, o in zip(case["fresh"], outs[1:]):
+    case["fresh"] = []
+    for c, o in zip(fresh, outs[1:]):
         r = o["events"][0]
-        f.update(before=r["before"], after=r["after"], digest=r["digest"], status=r["status"], summary=r["summary"])
-        fulls.setdefault(call_key(f["call"]), []).append(r["full"])
+        case["fresh"].append(dict(call=c, before=r["before"], after=r["after"], digest=r["digest"], status=r["status"],
+                                  summary=r["summary"]))
+        fulls.setdefault(call_key(c), []).append(r["full"])
     diffs = []
     for k, fl in fulls.items():
         for x in fl[1:]:
